@@ -22,6 +22,9 @@ pub enum Fault {
     /// both at once: the failing call passes `slow` scheduling points before it returns,
     /// and a canceller cancels after `delay` of its own
     Both { delay: u16, pos: u8, k: u8, slow: u8 },
+    /// several blocks fail: block i fails on its k-th call if bit (i mod 16) of `mask` is
+    /// set (mask 0xffff: every block)
+    FailMany { mask: u16, k: u8 },
 }
 
 #[derive(Clone, Debug, Serialize, Deserialize, PartialEq)]
@@ -42,6 +45,7 @@ struct Outcome {
     dropped: Vec<bool>,
     cancel_done: bool,
     failed: bool,
+    failed_blocks: Vec<bool>,
     n: usize,
     names: Vec<String>,
 }
@@ -65,7 +69,12 @@ fn scenario(c: &C07Case, out: Arc<Mutex<Outcome>>) {
         shared.fail_yields.store(slow as u64, Ordering::SeqCst);
     }
     let names = b.names.clone();
-    let blocks = wrap(std::mem::take(&mut b.blocks), &names, &shared, fail);
+    let mut fails: Vec<(usize, u64)> = fail.into_iter().collect();
+    if let Fault::FailMany { mask, k } = c.fault {
+        let mask = if mask == 0 { 1 } else { mask };
+        fails = (0..n).filter(|i| mask >> (i % 16) & 1 == 1).map(|i| (i, k.max(1) as u64)).collect();
+    }
+    let blocks = wrap_multi(std::mem::take(&mut b.blocks), &names, &shared, &fails);
     let order = add_order(r, n);
     let mut slots: Vec<Option<Box<dyn rustradio::block::Block + Send>>> = blocks.into_iter().map(Some).collect();
     let mut g: Box<dyn GraphRunner> = if c.mt { Box::new(MTGraph::new()) } else { Box::new(Graph::new()) };
@@ -102,6 +111,7 @@ fn scenario(c: &C07Case, out: Arc<Mutex<Outcome>>) {
     o.calls = shared.calls.iter().map(|a| a.load(Ordering::SeqCst)).collect();
     o.dropped = shared.dropped.iter().map(|a| a.load(Ordering::SeqCst)).collect();
     o.failed = shared.failed.load(Ordering::SeqCst);
+    o.failed_blocks = shared.failed_blocks.iter().map(|a| a.load(Ordering::SeqCst)).collect();
 }
 
 impl Prop for C07 {
@@ -114,6 +124,7 @@ impl Prop for C07 {
             1 => prop_oneof![Just(0u16), 0u16..30, 0u16..2000].prop_map(|delay| Fault::Cancel { delay }),
             1 => (any::<u8>(), 1u8..7).prop_map(|(pos, k)| Fault::Fail { pos, k }),
             1 => (prop_oneof![0u16..30, 0u16..400], any::<u8>(), 1u8..5, 0u8..6).prop_map(|(delay, pos, k, slow)| Fault::Both { delay, pos, k, slow }),
+            1 => (prop_oneof![Just(0xffffu16), any::<u16>()], 1u8..4).prop_map(|(mask, k)| Fault::FailMany { mask, k }),
         ];
         (recipe_strategy(tier.pick(12_000, 30_000) as u32), any::<bool>(), fault, any::<bool>(), decisions_strategy(tier.pick(400, 1500) as usize))
             .prop_map(|(recipe, mt, fault, endless, decisions)| C07Case { recipe, mt, fault, endless, decisions })
@@ -128,7 +139,7 @@ impl Prop for C07 {
         let ex = explore(&case.decisions, 3_000_000, move || scenario(&c2, o2.clone()));
         let runner = if case.mt { "MTGraph" } else { "Graph" };
         let o = out.lock().unwrap();
-        ctx.class(format!("runner={runner} fault={}", match case.fault { Fault::Cancel { .. } => "cancel", Fault::Fail { .. } => "fail", Fault::Both { .. } => "cancel+fail" }));
+        ctx.class(format!("runner={runner} fault={}", match case.fault { Fault::Cancel { .. } => "cancel", Fault::Fail { .. } => "fail", Fault::Both { .. } => "cancel+fail", Fault::FailMany { .. } => "fail-many" }));
         if let Some(pi) = &ex.panic {
             if ex.step_bound_hit {
                 if ex.fair_steps > 1_500_000 {
@@ -173,6 +184,34 @@ impl Prop for C07 {
                     Err(e) if !e.contains(&format!("injected#{p}")) => ctx.fail(
                         format!("C07/{runner}/wrong-error"),
                         format!("block #{p} failed with 'injected#{p}', run() returned a different error: {e}"),
+                    ),
+                    Err(_) => {}
+                }
+            }
+            Fault::FailMany { .. } => {
+                let who: Vec<usize> = o.failed_blocks.iter().enumerate().filter(|(_, f)| **f).map(|(i, _)| i).collect();
+                if who.is_empty() {
+                    ctx.class("failure-not-reached");
+                    if ret.is_err() {
+                        ctx.fail(format!("C07/{runner}/spurious-error"), format!("run() returned {ret:?} although no failure was injected"));
+                    }
+                    return;
+                }
+                if who.len() >= 2 {
+                    ctx.nontrivial();
+                    ctx.class("fail-many: >= 2 blocks failed");
+                }
+                if who.len() == o.n {
+                    ctx.class("fail-many: every block failed");
+                }
+                match ret {
+                    Ok(()) => ctx.fail(
+                        format!("C07/{runner}/failure-reported-as-success"),
+                        format!("blocks {who:?} failed, but run() returned Ok"),
+                    ),
+                    Err(e) if !who.iter().any(|p| e.contains(&format!("injected#{p}"))) => ctx.fail(
+                        format!("C07/{runner}/wrong-error"),
+                        format!("blocks {who:?} failed with 'injected#<i>', run() returned a different error: {e}"),
                     ),
                     Err(_) => {}
                 }
@@ -232,7 +271,7 @@ impl Prop for C07 {
         }
     }
     fn rule(&self) -> String {
-        "generated: both runners x graph recipe (as C06) x fault plan: cancel, fail, or both at once (the failing call passes 0-5 scheduling points before it returns while the canceller runs: a failure must be reported even if cancellation was requested during the failing call); cancel (a canceller task calls cancel() after d of its own scheduling points: before run, during work calls, while everybody waits) or fail (a wrapper block at a generated position returns Err('injected#p') on its k-th call, k in 1..6) x scheduler decision stream; run() executes on the shuttle runtime (for Graph too, so that the canceller interleaves at every stream lock). Oracle: cancel => run() returns, returns Ok, per block at most 1 work() call started after cancel() had returned, and (MTGraph) every block has been dropped; fail => run() returns Err whose text contains the injected marker; a panic, Ok, a different error or non-return is a violation. Non-trivial: the failing block is neither first nor last, or the cancellation landed after blocks had started working; distinct = hash of (recipe, fault, decisions).".into()
+        "generated: both runners x graph recipe (as C06) x fault plan: cancel, fail, several failing blocks (up to every block of the graph), or cancel and fail at once (the failing call passes 0-5 scheduling points before it returns while the canceller runs: a failure must be reported even if cancellation was requested during the failing call); cancel (a canceller task calls cancel() after d of its own scheduling points: before run, during work calls, while everybody waits) or fail (a wrapper block at a generated position returns Err('injected#p') on its k-th call, k in 1..6) x scheduler decision stream; run() executes on the shuttle runtime (for Graph too, so that the canceller interleaves at every stream lock). Oracle: cancel => run() returns, returns Ok, per block at most 1 work() call started after cancel() had returned, and (MTGraph) every block has been dropped; fail => run() returns Err whose text contains the injected marker; a panic, Ok, a different error or non-return is a violation. Non-trivial: the failing block is neither first nor last, or the cancellation landed after blocks had started working; distinct = hash of (recipe, fault, decisions).".into()
     }
     fn assumptions(&self) -> Vec<String> {
         vec![
